@@ -859,6 +859,13 @@ pub fn fns<'tcx>(tcx: TyCtxt<'tcx>) -> J {
         }
         let vis = if matches!(kind, DefKind::Fn | DefKind::AssocFn) { vis_str(tcx, did) } else { "priv" };
         let name = tcx.opt_item_name(did).map(|s| s.to_string());
+        // promoted constants of this body (evaluated by the analysis when a constant's bytes cannot be decoded directly)
+        let mut promoted = Vec::new();
+        for pbody in tcx.promoted_mir(did).iter() {
+            let pcx = BodyCx { tcx, body: pbody, def_id: did, env };
+            let (pl, pb) = pcx.body_json();
+            promoted.push(J::Obj(vec![("locals", pl), ("blocks", pb)]));
+        }
         out.push(J::Obj(vec![
             ("path", J::s(tcx.def_path_str(did))),
             ("name", J::opt_s(name)),
@@ -871,6 +878,7 @@ pub fn fns<'tcx>(tcx: TyCtxt<'tcx>) -> J {
             ("arg_count", J::Int(body.arg_count as i128)),
             ("locals", locals),
             ("blocks", blocks),
+            ("promoted", J::Arr(promoted)),
         ]));
     }
     J::Arr(out)
